@@ -1734,15 +1734,26 @@ impl VmGreenThread {
                     return false;
                 }
                 let Some(c) = a.checked_div(b) else {
-                    self.error = Some(self.make_error(VmErrorKind::DivisionByZero).into());
+                    self.error = Some(
+                        self.make_error(VmErrorKind::IntegerOverflowUnderflow)
+                            .into(),
+                    );
                     return false;
                 };
                 self.store_offset_or_top(dest, c);
             }
             Instr::DivideIntImm(dest, reg1, imm) => {
                 let a = self.load_offset_or_top(reg1).get_int(self);
-                let Some(c) = a.checked_div(self.shared.int_constants[imm as usize]) else {
+                let b = self.shared.int_constants[imm as usize];
+                if b == 0 {
                     self.error = Some(self.make_error(VmErrorKind::DivisionByZero).into());
+                    return false;
+                }
+                let Some(c) = a.checked_div(b) else {
+                    self.error = Some(
+                        self.make_error(VmErrorKind::IntegerOverflowUnderflow)
+                            .into(),
+                    );
                     return false;
                 };
                 self.store_offset_or_top(dest, c);
@@ -1750,7 +1761,7 @@ impl VmGreenThread {
             Instr::PowerInt(dest, reg1, reg2) => {
                 let b = self.load_offset_or_top(reg2).get_int(self);
                 let a = self.load_offset_or_top(reg1).get_int(self);
-                let Some(c) = a.checked_pow(b as u32) else {
+                let Some(c) = u32::try_from(b).ok().and_then(|e| a.checked_pow(e)) else {
                     self.error = Some(
                         self.make_error(VmErrorKind::IntegerOverflowUnderflow)
                             .into(),
@@ -1761,7 +1772,8 @@ impl VmGreenThread {
             }
             Instr::PowerIntImm(dest, reg1, imm) => {
                 let a = self.load_offset_or_top(reg1).get_int(self);
-                let Some(c) = a.checked_pow(self.shared.int_constants[imm as usize] as u32) else {
+                let b = self.shared.int_constants[imm as usize];
+                let Some(c) = u32::try_from(b).ok().and_then(|e| a.checked_pow(e)) else {
                     self.error = Some(
                         self.make_error(VmErrorKind::IntegerOverflowUnderflow)
                             .into(),
@@ -1773,19 +1785,22 @@ impl VmGreenThread {
             Instr::Modulo(dest, reg1, reg2) => {
                 let b = self.load_offset_or_top(reg2).get_int(self);
                 let a = self.load_offset_or_top(reg1).get_int(self);
-                let Some(c) = a.checked_rem_euclid(b) else {
+                if b == 0 {
                     self.error = Some(self.make_error(VmErrorKind::DivisionByZero).into());
                     return false;
-                };
+                }
+                // the Euclidean remainder always fits (MIN % -1 == 0)
+                let c = a.wrapping_rem_euclid(b);
                 self.store_offset_or_top(dest, c);
             }
             Instr::ModuloImm(dest, reg1, imm) => {
                 let a = self.load_offset_or_top(reg1).get_int(self);
                 let b = self.shared.int_constants[imm as usize];
-                let Some(c) = a.checked_rem_euclid(b) else {
+                if b == 0 {
                     self.error = Some(self.make_error(VmErrorKind::DivisionByZero).into());
                     return false;
-                };
+                }
+                let c = a.wrapping_rem_euclid(b);
                 self.store_offset_or_top(dest, c);
             }
             Instr::BitXor(dest, reg1, reg2) => {
